@@ -1,7 +1,8 @@
 (* C11 — property theorems only. Each is closed by `exact` of a lemma proved in Proofs/NsProofs.v,
    or by kernel evaluation of a closed witness. *)
 From JV Require Import Lib.Base Model.Ns Model.NsRun Model.NsGuard Spec.NestedDict Spec.NestedDictRun
-  Gen.C11Clash Model.C11NsFixed Corr.C11Judge Proofs.NsProofs Proofs.C11MoreProofs Proofs.C11FixedProofs.
+  Gen.C11Clash Model.C11NsFixed Corr.C11Judge Proofs.NsProofs Proofs.C11MoreProofs Proofs.C11FixedProofs
+  Proofs.C11EqProofs.
 
 (* THE REFINEMENT. For ANY clash set and ANY history (no bound on its length, on the depth of keys
    or on the size of values) of the operations
@@ -174,6 +175,28 @@ Proof.
   vm_compute in H3. discriminate H3.
 Qed.
 Print Assumptions path_through_dict_refuted.
+
+(* ---- equality -------------------------------------------------------------------------------------------- *)
+(* Python's == on two stored trees (argparse's Namespace.__eq__: equality of __dict__; dict equality does not see
+   insertion order; a Namespace never equals a dict, a list never a tuple) is == on the user-visible nested
+   dictionaries, for ANY clash set and ANY two values whose Namespaces — at every depth, also inside lists, tuples
+   and dicts — carry names in stored form (wf_deep). *)
+Theorem eq_agrees :
+  forall clash a b,
+    wf_deep clash a = true -> wf_deep clash b = true ->
+    py_eq a b = py_eq (unmark_val a) (unmark_val b).
+Proof. exact eq_agrees_proof. Qed.
+Print Assumptions eq_agrees.
+
+(* satisfiable and non-trivial: two Namespaces holding the same entries (one a clash name, one a list of Namespaces)
+   in a different order are equal, and differ once a leaf differs *)
+Example eq_hypotheses_satisfiable :
+  let x := VNs [(ZW :: s_items, VInt 1); (s_a, VList [VNs [(ZW :: s_items, VNone)]])] in
+  let y := VNs [(s_a, VList [VNs [(ZW :: s_items, VNone)]]); (ZW :: s_items, VInt 1)] in
+  let z := VNs [(s_a, VList [VNs [(ZW :: s_items, VInt 0)]]); (ZW :: s_items, VInt 1)] in
+  wf_deep clash_names x = true /\ wf_deep clash_names y = true /\ wf_deep clash_names z = true /\
+  py_eq x y = true /\ py_eq (unmark_val x) (unmark_val y) = true /\ py_eq x z = false.
+Proof. vm_compute. repeat split; reflexivity. Qed.
 
 (* ---- the repaired code (fixes/C11-path-through-dict.patch, Model/C11NsFixed.v) ------------------------------ *)
 (* On histories THROUGH dict-valued leaves the model of the patched code answers exactly as the nested dictionary:
